@@ -64,6 +64,8 @@ type pxWorld struct {
 	served      chan struct{}
 	// slowDial, if set, makes a dial of "tarpit" block until it is closed, and then fail.
 	slowDial chan struct{}
+	// blockGate, if set, parks the address-rewriting callback for destination "block" until closed
+	blockGate chan struct{}
 }
 
 func newPxWorld(ser bool, rewrite goat.RpcIntercepter) *pxWorld {
@@ -607,3 +609,82 @@ func execC16Burst(t *testing.T, c C16Burst) (v Verdict) {
 func TestC16Burst(t *testing.T) { checkProp(t, "C16", "burst", genC16Burst, execC16Burst) }
 
 var _ = sort.Strings
+
+// ---- C16 attach: peers attaching while the first envelope for their name is in flight ----------
+
+type C16Attach struct {
+	N      int    `json:"n"`      // names tried in one proxy
+	Ser    bool   `json:"ser"`
+	Sender string `json:"sender"` // who sends the probe after the attach: "same" client as the racing envelope or "other"
+	Burst  int    `json:"burst"`  // envelopes racing with the attach (1..3)
+}
+
+func genC16Attach(t *rapid.T) C16Attach {
+	return C16Attach{N: rapid.IntRange(4, 32).Draw(t, "n"), Ser: rapid.Bool().Draw(t, "ser"), Sender: rapid.SampledFrom([]string{"same", "other"}).Draw(t, "sender"), Burst: rapid.IntRange(1, 3).Draw(t, "burst")}
+}
+
+// execC16Attach: for each of N names that cannot be dialled, a peer attaches under the name at the very moment
+// envelopes for that name arrive (no quiescent point in between). Whatever happens to the racing envelopes (they are
+// forwarded if the attach won, refused if the failed dial won), an envelope sent once both have completed is addressed
+// to an attached peer and must reach it, exactly once.
+func execC16Attach(t *testing.T, c C16Attach) (v Verdict) {
+	racedTotal := 0
+	res := kit.Bubble(t, func() {
+		bg := context.Background()
+		w := newPxWorld(c.Ser, nil)
+		c0, c1 := w.attach("c0"), w.attach("c1")
+		kit.Settle()
+		for i := 0; i < c.N && v.Fail == ""; i++ {
+			name := fmt.Sprintf("r%d", i)
+			start := make(chan struct{})
+			var nl *kit.Link
+			attached := make(chan struct{})
+			go func() {
+				<-start
+				nl = w.attach(name)
+				close(attached)
+			}()
+			go func() {
+				<-start
+				for k := 0; k < c.Burst; k++ {
+					_ = c0.A.Write(bg, pxEnv("c0", name, 2000+10*i+k))
+				}
+			}()
+			kit.Settle()
+			close(start)
+			<-attached
+			kit.Settle()
+			raced := nl.A.ReadAvailable()
+			for k, e := range raced {
+				if e.GetId() < uint64(2000+10*i) || e.GetId() >= uint64(2000+10*i+c.Burst) || (k > 0 && raced[k-1].GetId() >= e.GetId()) {
+					v.failf("attach: %s received envelope id %d out of order or never sent to it", name, e.GetId())
+				}
+			}
+			from, fl := "c0", c0
+			if c.Sender == "other" {
+				from, fl = "c1", c1
+			}
+			_ = fl.A.Write(bg, pxEnv(from, name, 3000+i))
+			kit.Settle()
+			if got := nl.A.ReadAvailable(); len(got) != 1 || got[0].GetId() != uint64(3000+i) {
+				v.failf("attach: an envelope for %s sent by %s after the peer had attached did not reach the attached connection exactly once (got %d envelopes)", name, from, len(got))
+			}
+			racedTotal += len(raced)
+		}
+		w.cancel()
+		w.mu.Lock()
+		for _, l := range w.peers {
+			l.Close()
+		}
+		w.mu.Unlock()
+		kit.Settle()
+	})
+	if res.Panic != nil {
+		v.failf("panic: %v\n%s", res.Panic, res.Stack)
+	}
+	v.Info = kit.CaseInfo{Labels: []string{"attach.sender=" + c.Sender, fmt.Sprintf("attach.some_raced_delivered=%v", racedTotal > 0), fmt.Sprintf("attach.some_raced_refused=%v", racedTotal < c.N*c.Burst)}, NonTrivial: true,
+		Key: fmt.Sprintf("%+v/%d", c, racedTotal), Sample: map[string]any{"attach": c, "raced_delivered": racedTotal}}
+	return v
+}
+
+func TestC16Attach(t *testing.T) { checkProp(t, "C16", "attach", genC16Attach, execC16Attach) }
